@@ -40,6 +40,11 @@ try:
 except ImportError:
     pass
 try:
+    from . import libclosures
+    FAMILIES["libclosures"] = libclosures
+except ImportError:
+    pass
+try:
     from . import misc
     FAMILIES["misc"] = misc
 except ImportError:
@@ -47,7 +52,9 @@ except ImportError:
 
 
 def generate(rng, seed=0, single_module=False, family=None):
-    fams = sorted(f for f in FAMILIES if not (single_module and getattr(FAMILIES[f], "MULTI_MODULE", False)))
+    # families marked ONLY_EXPLICIT are template batches of one property and never drawn at random (adding one must not
+    # shift what the other properties' random draws generate)
+    fams = sorted(f for f in FAMILIES if not (single_module and getattr(FAMILIES[f], "MULTI_MODULE", False)) and not getattr(FAMILIES[f], "ONLY_EXPLICIT", False))
     fam = family or rng.choice(fams)
     spec = FAMILIES[fam].generate(rng)
     g = {"family": fam, "spec": spec}
